@@ -93,12 +93,17 @@ class Scope(FortranObj):
     def get_children(self, public_only=False) -> list[T[FortranObj]]:
         if not public_only:
             return copy.copy(self.children)
+        # An unnamed interface block is not an entity: it is always searched, and its
+        # members take the default accessibility of the scope that contains the block
+        def_vis = self.def_vis
+        if self.name.startswith("#GEN_INT") and self.parent is not None:
+            def_vis = self.parent.def_vis
         pub_children = []
         for child in self.children:
-            if (child.vis < 0) or ((self.def_vis < 0) and (child.vis <= 0)):
-                continue
             if child.name.startswith("#GEN_INT"):
                 pub_children.append(child)
+                continue
+            if (child.vis < 0) or ((def_vis < 0) and (child.vis <= 0)):
                 continue
             pub_children.append(child)
         return pub_children
